@@ -233,7 +233,9 @@ def chk_automatch_geo(c):
     dim = c['dim']
     kvs = tuple(bspline.make_knots(c['p'], 0.0, 1.0, n) for n in c['n'])
     base = geometry.unit_cube(dim=dim)
-    second = geometry.unit_cube(dim=dim).translate(tuple([1.0] + [0.0] * (dim - 1)))
+    shift = [0.0] * dim
+    shift[c.get('dir', 0)] = 1.0          # stack along x, y or z: the interface is normal to a different parameter axis each time
+    second = geometry.unit_cube(dim=dim).translate(tuple(shift))
     # reflect the parametrisation of the second patch along the chosen parameter axes (the image stays the same cube)
     C = np.asarray(second.coeffs)
     for ax, fl in enumerate(c['reflect']):
@@ -285,7 +287,10 @@ def generate(tier, rng):
             yield 'automatch_geo', {'dim': 2, 'p': 2, 'n': [2, 3], 'reflect': list(refl), 'swap': swap}
     for refl in _it.product((False, True), repeat=3):
         for swap in (False, True):
-            yield 'automatch_geo', {'dim': 3, 'p': 1 + int(refl[0]), 'n': [2, 2, 3], 'reflect': list(refl), 'swap': swap}
+            for d in (0, 1, 2):
+                yield 'automatch_geo', {'dim': 3, 'p': 1 + int(refl[0]), 'n': [2, 2, 3], 'reflect': list(refl), 'swap': swap, 'dir': d}
+    for refl in _it.product((False, True), repeat=2):
+        yield 'automatch_geo', {'dim': 2, 'p': 1, 'n': [3, 2], 'reflect': list(refl), 'swap': False, 'dir': 1}
     quick = tier == 'quick'
     for name in ('grid2x1', 'grid2x2', 'ring3', 'ring4', 'ring5') + (() if quick else ('ring6',)):
         dim, npatch, joins = _complex(name)
